@@ -47,12 +47,11 @@ Definition hw_intended (main : list lang) (pins : list intended) (h : hw) : bool
 
 (* what the encoder writes typed is decoded with the same type: the same entry is in the parser's list, or the
    parser applies that type to every opaque attribute value of the language *)
-Definition is_mime (k : hw_kind) : bool := match k with HMime | HMimeDm => true | _ => false end.
-
-(* The MIME rewrite is a change of text, not a typed binary form: it is exempt here.  (Recorded fact: the WBXML encoder
-   applies it language-wide — HContentAny — while the XML generator undoes it in <Type> only.) *)
-Definition enc_matched (dec : list hw) (e : hw) : bool :=
-  is_mime (hw_type e) ||
+(* what the encoder writes typed is handled with the same type in the other direction: the same entry is in the parser /
+   XML-generator list, or the parser applies that type to every opaque attribute value of the language, or the entry is
+   one of the pinned one-sided entries (exc) *)
+Definition enc_matched (dec exc : list hw) (e : hw) : bool :=
+  existsb (hw_eqb e) exc ||
   existsb (hw_eqb e) dec ||
   match hw_place e with
   | HAttrDT | HAttrAny | HAttrVal =>
@@ -68,9 +67,11 @@ Definition pin_realised (main : list lang) (dec : list hw) (i : intended) : bool
                                                         match hw_row_name main d with Some m => String.eqb m n | None => false end) dec) (i_names i)
                       end) (i_langs i).
 
-Definition hardwired_ok (main : list lang) (pins : list intended) (dec enc : list hw) : bool :=
+(* exc = pinned one-sided entries: really written by the encoder and really not handled in the other direction *)
+Definition hardwired_ok (main : list lang) (pins : list intended) (exc dec enc : list hw) : bool :=
   forallb (hw_intended main pins) dec && forallb (hw_intended main pins) enc &&
-  forallb (enc_matched dec) enc && forallb (pin_realised main (dec ++ enc)) pins.
+  forallb (enc_matched dec exc) enc && forallb (pin_realised main (dec ++ enc)) pins &&
+  forallb (fun x => existsb (hw_eqb x) enc && negb (existsb (hw_eqb x) dec)) exc.
 
 (* ---- the table option WBXML_TAG_OPTION_BINARY (0x1): probed on every real tag row.  enc_rows = rows whose text the WBXML
    encoder writes as OPAQUE, xml_rows = rows whose text the XML generator renders in base64: both are exactly the flagged rows *)
